@@ -1059,6 +1059,17 @@ func (e *exec) doInprocSub(op Op) {
 	err := e.b.Srv.Subscribe(f, q, &s.fn)
 	valid := e.spec.m.ValidFilter(f) && validQoS(q)
 	got := s.take()
+	if err != nil && valid && e.p.InprocErr && len(got) > 0 {
+		// the callback (which returns an error for everything in this plan) turned down a
+		// retained message, Server.Subscribe reports that; the application withdraws
+		e.b.Srv.Unsubscribe(f, &s.fn)
+		if e.spec.inproc[ii] != nil {
+			delete(e.spec.inproc[ii], e.spec.m.Canon(f))
+			delete(e.vari.inproc[ii], e.vari.m.Canon(f))
+		}
+		e.class("in-process-subscribe-refused")
+		return
+	}
 	if err != nil {
 		if valid {
 			e.report(dSuback, "-", "Server.Subscribe(%q, %d) returned %v", f, q, err)
